@@ -113,7 +113,7 @@ def _status(res):
     return res.status if res.status != "raised" else "raised"
 
 
-def compare_traces(ra, rb, props, oracle, world_a, client=None, compare_draws=True, tol=TOL_TWIN, align=None):
+def compare_traces(ra, rb, props, oracle, world_a, client=None, compare_draws=True, tol=TOL_TWIN, align=None, same_layout=False):
     """ra, rb: RunResults with snapshots over the *same sids* (align: list of sids to compare).
     Returns (violation or None, step index of divergence)."""
     ia = {r["sid"]: k for k, r in enumerate(ra.recipes)}
@@ -151,6 +151,11 @@ def compare_traces(ra, rb, props, oracle, world_a, client=None, compare_draws=Tr
                 da = [post_a.sub[n]["dims"] for n in r.get("on", []) if n in post_a.sub]
                 db = [post_b.sub[n]["dims"] for n in r.get("on", []) if n in post_b.sub]
                 if da != db:
+                    if same_layout:
+                        # twins that differ only in which Operation OBJECT is used, or in what happened
+                        # to unrelated objects, hand the library the same input in the same
+                        # representation: the cut-off it chooses must be the same
+                        return Violation(props, oracle, "twin-cutoff", cell, f"sid {sid}: cut-offs {da} vs {db} for the same operation on the same input"), sid
                     return None, None
         if r["do"] in ("kraus", "povm", "fault"):
             # channel / operator-set specs are resolved at the targets' *current* dimensions; if the
@@ -233,6 +238,150 @@ def c15_twins(cfg, recipes, client=0):
     a = runner.execute_run(dict(cfg), recipes=copy.deepcopy(recipes), keep_snapshots=True)
     b = runner.execute_run(dict(cfg), recipes=copy.deepcopy(solo), keep_snapshots=True)
     return a, b, [r["sid"] for r in solo]
+
+
+_ANGLE_KEYS = ("theta", "phi", "omega", "eta", "re", "im")
+
+
+def poison_prefix(ops):
+    """Operations on objects nobody else uses, built from the program's own operation pool so that
+    whatever a description could wrongly share with another one (a cache keyed too coarsely, state kept
+    on the operation type) is there to be shared: the same type with other parameter values, the same
+    values under other parameter names or another type, the same values written in another keyword
+    order. Returns (extra op pool, recipes of client 9)."""
+    extra, rec = {}, []
+    sid = [2 * 10**6]
+
+    def emit(r):
+        sid[0] += 1
+        r["sid"] = sid[0]
+        r["client"] = 9
+        rec.append(r)
+
+    emit({"do": "mk_env", "name": "e95", "fock": 1, "pol": "R"})
+    emit({"do": "mk_env", "name": "e96", "fock": 0, "pol": "H"})
+    emit({"do": "mk_ce", "name": "ce95", "of": ["e95", "e96"]})
+    customs = {}
+    n = 0
+    for name in sorted(ops):
+        sp = ops[name]
+        t = sp.get("t", "")
+        keys = [k for k in _ANGLE_KEYS if isinstance(sp.get(k), (int, float))]
+        variants = []
+        if keys:
+            v = dict(sp)
+            for k in keys:
+                v[k] = round(float(sp[k]) + 0.37, 6)
+            variants.append(v)
+        if t == "P.U3":
+            for kw, perm in ((["theta", "phi", "omega"], ("theta", "phi", "omega")), (["omega", "theta", "phi"], ("omega", "theta", "phi"))):
+                base = sp.get("kw", ["phi", "theta", "omega"])
+                v = dict(sp)
+                # the values in the order the program wrote them, under other names
+                for k_new, k_old in zip(kw, base):
+                    v[k_new] = sp[k_old]
+                v["kw"] = kw
+                variants.append(v)
+        if t in ("P.RX", "P.RY", "P.RZ"):
+            for g in ("P.RX", "P.RY", "P.RZ"):
+                if g != t:
+                    variants.append({**sp, "t": g})
+        if t in ("F.Displace", "F.Squeeze"):
+            variants = [v for v in variants if abs(complex(v.get("re", 0), v.get("im", 0))) < 1.3]
+            variants.append({**sp, "re": -sp.get("re", 0.0), "im": -sp.get("im", 0.0)})
+        kinds = sp.get("kinds") or [t[0]]
+        for v in variants:
+            if v == sp or len(kinds) > 2:
+                continue
+            n += 1
+            nm = f"pz{n}"
+            extra[nm] = v
+            on = []
+            ok = True
+            for i, k in enumerate(kinds):
+                if k == "P":
+                    on.append(("e95.p", "e96.p")[i % 2] if kinds.count("P") > 1 else "e95.p")
+                elif k == "F":
+                    on.append(("e95.f", "e96.f")[i % 2] if kinds.count("F") > 1 else "e96.f")
+                elif k == "C":
+                    d = v.get("d", 3)
+                    if d not in customs:
+                        customs[d] = f"s9{len(customs)}"
+                        emit({"do": "mk_custom", "name": customs[d], "d": d, "label": 0})
+                        emit({"do": "mk_ce", "name": f"ce9{len(customs)}", "of": [customs[d], "ce95"]})
+                    on.append(customs[d])
+                else:
+                    ok = False
+            if not ok or len(set(on)) != len(on):
+                continue
+            if len(on) == 1:
+                emit({"do": "op", "entry": "state", "op": nm, "on": on})
+            else:
+                emit({"do": "op", "entry": "ce", "ce": "ce95", "op": nm, "on": on})
+    return extra, rec
+
+
+def shifted_pool(ops, delta):
+    """The operation pool with every rotation / phase / mixing angle moved by `delta` (values nobody
+    has used before in this process); Displace / Squeeze amplitudes stay (they drive the cut-offs)."""
+    out = {}
+    for name, sp in ops.items():
+        v = dict(sp)
+        for k in ("theta", "phi", "omega", "eta"):
+            if isinstance(v.get(k), (int, float)):
+                v[k] = round(float(v[k]) + delta, 9)
+        out[name] = v
+    return out
+
+
+def history_twin(cfg, recipes, client=0):
+    """State that outlives a run (a module-level operator cache, say) cannot be seen by comparing two
+    executions in one process - the first one primes it for the second. So: the program with its angles
+    moved to fresh values, alone (must be clean under the per-step oracles), and the program moved to
+    other fresh values behind a prefix of look-alikes built from those values (must be clean too)."""
+    solo = [r for r in recipes if r.get("client", 0) == client]
+    seed = int(cfg.get("seed", 0))
+    d1 = 0.0137 + (seed % 9973) * 1e-6
+    d2 = -0.0211 - (seed % 9967) * 1e-6
+    c1 = dict(cfg)
+    c1["ops"] = shifted_pool(cfg.get("ops", {}), d2)
+    first = runner.execute_run(c1, recipes=copy.deepcopy(solo), stop_on_taint=False)
+    pool = shifted_pool(cfg.get("ops", {}), d1)
+    extra, prefix = poison_prefix(pool)
+    c2 = dict(cfg)
+    c2["ops"] = {**pool, **extra}
+    second = runner.execute_run(c2, recipes=copy.deepcopy(prefix + solo), stop_on_taint=False)
+    return first, second
+
+
+def reused_estimator_ops(recipes, ops):
+    """Names of Displace / Squeeze / rot operations applied more than once (under any name they go by)."""
+    n = {}
+    for r in recipes:
+        if r["do"] == "op":
+            sp = ops.get(r.get("op"), {})
+            if sp.get("t") in ("F.Displace", "F.Squeeze") or sp.get("form") == "rot":
+                n[r["op"]] = n.get(r["op"], 0) + 1
+    return [k for k, v in n.items() if v > 1]
+
+
+def fresh_object_twin(cfg, recipes):
+    """The recorded program as it is, and with a new Operation object for every application."""
+    a = runner.execute_run(dict(cfg), recipes=copy.deepcopy(recipes), keep_snapshots=True)
+    f = runner.execute_run(dict(cfg, fresh_ops=True), recipes=copy.deepcopy(recipes), keep_snapshots=True)
+    return a, f
+
+
+def c15_more_twins(cfg, recipes, client=0):
+    """Two more executions of client `client`'s program: behind a poisoning prefix of look-alike
+    operations on unrelated objects, and with a new Operation object for every application."""
+    solo = [r for r in recipes if r.get("client", 0) == client]
+    extra, prefix = poison_prefix(cfg.get("ops", {}))
+    c = dict(cfg)
+    c["ops"] = {**cfg.get("ops", {}), **extra}
+    p = runner.execute_run(c, recipes=copy.deepcopy(prefix + solo), keep_snapshots=True, stop_on_taint=False)
+    f = runner.execute_run(dict(cfg, fresh_ops=True), recipes=copy.deepcopy(solo), keep_snapshots=True)
+    return p, f
 
 
 def distinct_values(recipes):
